@@ -127,7 +127,7 @@ PROPS["C10"] = {
                   "Proved (Verus, unit surface): Layout::apply_to - the call every view's render starts with - returns a view on the same data whose window is the sub-window rows pos.row..+height, cols pos.col..+width of the "
                   "surface it was given, clipped to it (window model of C07), so whatever a view paints through it stays inside the surface it received and inside the rectangle its layout records. "
                   "Proved (Kani, complete for the one-child Container): Container::layout against a probe child that returns ANY size within the constraint it is handed (the modular View contract) - for every container size, alignment pair, margins and constraint: no panic/overflow, own size within the constraint, child constraint has min <= max. "
-                  "flex_layout with zero children and with one probe child terminates without panic within the constraint (Kani, bounded stand-ins; two or more children exhaust CBMC's memory). "
+                  "flex_layout with zero children, with one non-flex probe child and with one flex probe child (share computed in f64) terminates without panic within the constraint (Kani, bounded stand-ins; two or more children exhaust CBMC's memory). "
                   "Proved (Verus, unit layouttree, any arena size): under the arena invariant tree_wf (every sibling/child link points forward and inside the arena) TreeMut::push allocates the node at the end and links it as the LAST child "
                   "keeping tree_wf and all existing values; pop detaches the FIRST child; child_mut/sibling/children/TreeIter::next walk exactly the child_first/sibling links; TreeMutView::new keeps tree_wf; "
                   "FindPath::next (hit-testing) yields the current layout and descends into the first child, in insertion order, whose recorded rectangle contains the position, with the position re-expressed relative to it - "
